@@ -358,6 +358,16 @@ structure Switch where
   mustCover : Bool           -- `default:` throws (or there is none): every enumerator needs its own case
 deriving DecidableEq, Repr, Inhabited
 
+/-- which C++ class the code of each `case` of one wrapper `switch` names (after `new`, inside `static_cast<…*>`,
+as explicit template argument of a called function template, through a local typedef): the last component of the
+qualified class name, template arguments dropped; `""` when the case names none; several different names joined by
+`|`.  One entry per `case` label, in label order (a fall-through label carries the class of the code it falls
+into). -/
+structure Dispatch where
+  site    : String
+  classes : List (String × String)
+deriving DecidableEq, Repr, Inhabited
+
 /-- `operator<<` / `operator>>` tables and wrapper switches of one run-time enum -/
 structure EnumTable where
   name     : String
@@ -367,6 +377,8 @@ structure EnumTable where
   parses   : List (String × String)    -- `if (val == "s") x = e`, in chain order
   parseThrows : Bool                   -- the final `else` throws
   switches : List Switch
+  /-- per wrapper switch: enumerator ↦ class named by its case (same order as `switches`) -/
+  dispatch : List Dispatch := []
 deriving Repr, Inhabited
 
 namespace EnumTable
@@ -392,6 +404,22 @@ def consistentB (E : EnumTable) : Bool :=
 def Consistent (E : EnumTable) : Prop := E.consistentB = true
 
 instance (E : EnumTable) : Decidable E.Consistent := inferInstanceAs (Decidable (_ = true))
+
+/-- the classes the wrapper switches name for enumerator `e` (switches whose case names no class are skipped) -/
+def classesOf (E : EnumTable) (e : String) : List String :=
+  E.dispatch.filterMap (fun d => (assoc e d.classes).filter (· ≠ ""))
+
+def allSame : List String → Bool
+  | [] => true
+  | c :: cs => cs.all (· == c)
+
+/-- every switch of the wrapper (constructor, destructor, apply_pre / apply_post / apply, operator(), bytes, …)
+maps an enumerator to the SAME class -/
+def sameClassB (E : EnumTable) : Bool := E.values.all (fun e => allSame (E.classesOf e))
+
+def SameClass (E : EnumTable) : Prop := E.sameClassB = true
+
+instance (E : EnumTable) : Decidable E.SameClass := inferInstanceAs (Decidable (_ = true))
 
 /-- does every must-cover switch have a case for `e`? -/
 def covered (E : EnumTable) (e : String) : Bool :=
